@@ -21,7 +21,7 @@ done
 tools/build_driver.sh asan >/dev/null || echo "warning: asan build failed"
 tools/build_driver.sh tsan >/dev/null || echo "warning: tsan build failed"
 # warm the Miri sysroot and dependency build
-CRATE=$(ls -d .build/crate-* | head -1)
+CRATE=.build/crate-$(echo -n "$(readlink -f ${VERIF_REPO:-/repo})" | md5sum | cut -c1-8)
 printf '1 fq.add q:1 q:2\n' > .work/miri-warm.txt
 ( cd "$CRATE" && CARGO_TARGET_DIR=/verif/.build/target-miri MIRIFLAGS="-Zmiri-disable-isolation" cargo +nightly miri run --offline -q -- /verif/.work/miri-warm.txt /verif/.work/miri-warm.log >/dev/null 2>&1 ) || echo "warning: miri warm-up failed"
 rm -f .work/miri-warm.*
